@@ -3,7 +3,15 @@ package main
 // Cases added after the seventh round of seeded changes (DESIGN 14.9).
 
 import (
+	"bufio"
+	"bytes"
+	"io"
+	"io/ioutil"
+	"strconv"
+	"strings"
+
 	"github.com/gobwas/ws"
+	"github.com/gobwas/ws/wsutil"
 )
 
 func init() {
@@ -18,7 +26,28 @@ func init() {
 	}
 	r7Wrap("C01", r7C01)
 	r7Wrap("C04", r7C01)
-	_ = ws.OpText
+	for _, id := range []string{"C01", "C02", "C06", "C08", "C17"} {
+		r7Wrap(id, r7DW)
+	}
+	replayers["DW"] = func(c *ctx, in []string) {
+		var side, n int
+		side, _ = strconv.Atoi(in[2])
+		n, _ = strconv.Atoi(in[3])
+		dw(c, in[0], in[1], byte(side), n)
+	}
+	r7Wrap("C02", r7C02)
+	replayers["C02WV"] = func(c *ctx, in []string) { c02WV(c, unhx(in[1]), key4(in[2]), in[3]) }
+	r7Wrap("C03", r7C03)
+	replayers["C03N"] = func(c *ctx, in []string) {
+		code, _ := strconv.Atoi(in[0])
+		rl, _ := strconv.Atoi(in[1])
+		c03N(c, uint16(code), rl)
+	}
+	r7Wrap("C05", r7C05)
+	r7Wrap("C15", r7C05)
+	r7Wrap("C07", r7C07)
+	r7Wrap("C04", r7C07)
+	r7Wrap("C19", r7C19Close)
 }
 
 // r7-C01: one long-lived Reader decoding frames of EVERY length form one after the other, in every order: a scratch
@@ -44,6 +73,301 @@ func r7C01(c *ctx) {
 			if c.thor {
 				runRM(c, "RM", side, fs, "-", "-", "eof")
 			}
+		}
+	}
+}
+
+// ---------------------------------------------------------------------------------------------------------------
+// DW: the concrete type of the DESTINATION must not change the bytes. The same operation is run against a plain
+// recording writer and against the same recorder behind another concrete writer type - a *bufio.Writer (fresh, or one
+// that has been used before so that its buffer holds stale bytes), a *bytes.Buffer with stale capacity, a writer that
+// also offers WriteString / WriteByte / ReadFrom - and the bytes that arrive (client frames unmasked, the random key
+// does not matter) must be the same. What the plain run sends is judged by the model-based kinds; this kind carries
+// their verdict over to the other destination types (r7-C01b: WriteHeader encoding into bufio's AvailableBuffer OR-ed
+// its flag bits into a stale byte).
+//   DW <api> <dress> <side> <n> -> <same 0|1> <plain> <dressed>
+
+type richWriter struct{ rec *recWriter }
+
+func (w richWriter) Write(p []byte) (int, error)       { return w.rec.Write(p) }
+func (w richWriter) WriteString(s string) (int, error) { return w.rec.Write([]byte(s)) }
+func (w richWriter) WriteByte(b byte) error            { _, err := w.rec.Write([]byte{b}); return err }
+func (w richWriter) ReadFrom(r io.Reader) (int64, error) {
+	b, err := ioutil.ReadAll(r)
+	w.rec.Write(b)
+	return int64(len(b)), err
+}
+
+var dwDresses = []string{"bufw16", "bufw64", "bufw4096", "bufw4096dirty", "bufw64dirty", "bytesbuf", "bytesbufdirty", "rich"}
+
+func dwDress(dress string, rec *recWriter) (io.Writer, func()) {
+	switch {
+	case strings.HasPrefix(dress, "bufw"):
+		d := strings.TrimPrefix(dress, "bufw")
+		dirty := strings.HasSuffix(d, "dirty")
+		n, _ := strconv.Atoi(strings.TrimSuffix(d, "dirty"))
+		bw := bufio.NewWriterSize(ioutil.Discard, n)
+		if dirty {
+			bw.Write(bytes.Repeat([]byte{0xff}, n+n/2)) // the buffer has wrapped and holds stale bytes
+			bw.Flush()
+		}
+		bw.Reset(rec)
+		return bw, func() { bw.Flush() }
+	case strings.HasPrefix(dress, "bytesbuf"):
+		var b bytes.Buffer
+		if strings.HasSuffix(dress, "dirty") {
+			b.Write(bytes.Repeat([]byte{0xff}, 300))
+			b.Reset()
+		}
+		return &b, func() { rec.Write(b.Bytes()) }
+	}
+	return richWriter{rec}, func() {}
+}
+
+func dw(c *ctx, api, dress string, side byte, n int) {
+	st := ws.State(side)
+	p := patBytes(n, n%7+int(side))
+	run := func(dst io.Writer) string {
+		res := "ok"
+		func() {
+			defer func() {
+				if r := recover(); r != nil {
+					res = "panic"
+				}
+			}()
+			h := ws.Header{Fin: n%2 == 0, Rsv: byte(n % 8), OpCode: ws.OpCode(1 + n%2), Length: int64(n), Masked: st.ClientSide()}
+			if h.Masked {
+				h.Mask = [4]byte{9, byte(n), 7, 5}
+			}
+			switch api {
+			case "writeheader":
+				// three headers in a row: the second and third land where earlier bytes were
+				ws.WriteHeader(dst, ws.Header{Fin: true, OpCode: ws.OpPing})
+				ws.WriteHeader(dst, h)
+				ws.WriteHeader(dst, ws.Header{Fin: false, OpCode: ws.OpText, Length: int64(n), Masked: h.Masked, Mask: h.Mask})
+			case "writeframe":
+				ws.WriteFrame(dst, ws.NewPingFrame([]byte("hi")))
+				f := ws.Frame{Header: h, Payload: append([]byte(nil), p...)}
+				ws.WriteFrame(dst, f)
+				ws.WriteFrame(dst, ws.NewFrame(ws.OpText, false, p))
+			case "writemessage":
+				wsutil.WriteMessage(dst, st, ws.OpBinary, p)
+				wsutil.WriteMessage(dst, st, ws.OpText, []byte("tail"))
+			case "writer":
+				w := wsutil.NewWriterSize(dst, st, ws.OpText, 64)
+				w.Write(p)
+				w.Flush()
+				w.Write([]byte("second"))
+				w.Flush()
+			case "writerreadfrom":
+				w := wsutil.NewWriterSize(dst, st, ws.OpBinary, 64)
+				w.ReadFrom(bytes.NewReader(p))
+				w.Flush()
+			case "writethrough":
+				w := wsutil.NewWriter(dst, st, ws.OpBinary)
+				w.WriteThrough(p)
+				w.Flush()
+			case "control":
+				cw := wsutil.NewControlWriter(dst, st, ws.OpPing)
+				q := p
+				if len(q) > 125 {
+					q = q[:125]
+				}
+				cw.Write(q)
+				cw.Flush()
+			case "cipherwriter":
+				cw := wsutil.NewCipherWriter(dst, [4]byte{1, 2, 3, 4})
+				cw.Write(p[:len(p)/3])
+				io.WriteString(cw, string(p[len(p)/3:2*len(p)/3]))
+				cw.Write(p[2*len(p)/3:])
+			case "ping":
+				q := p
+				if len(q) > 125 {
+					q = q[:125]
+				}
+				hd := ws.Header{Fin: true, OpCode: ws.OpPing, Length: int64(len(q))}
+				wsutil.ControlHandler{Src: bytes.NewReader(q), Dst: dst, State: st, DisableSrcCiphering: true}.HandlePing(hd)
+			}
+		}()
+		return res
+	}
+	plain := newRecWriter()
+	r1 := run(plain)
+	rec := newRecWriter()
+	dst, flush := dwDress(dress, rec)
+	r2 := run(dst)
+	flush()
+	norm := func(b []byte, r string) string {
+		if api == "cipherwriter" {
+			return hx(b) + "/" + r
+		}
+		return c19IOFrames(b) + "/" + r
+	}
+	a, b := norm(plain.all(), r1), norm(rec.all(), r2)
+	c.emit("DW %s %s %d %d -> %d %s %s", api, dress, side, n, b2i(a == b), a, b)
+}
+
+func r7DW(c *ctx) {
+	apis := []string{"writeheader", "writeframe", "writemessage", "writer", "writerreadfrom", "writethrough", "control", "cipherwriter", "ping"}
+	k := 0
+	for _, api := range apis {
+		for _, dress := range dwDresses {
+			for _, side := range []byte{1, 2} {
+				for _, n := range []int{0, 5, 125, 126, 300, 5000, 70000} {
+					k++
+					if !c.thor && n >= 5000 && k%3 != 0 {
+						continue
+					}
+					dw(c, api, dress, side, n)
+				}
+			}
+		}
+	}
+}
+
+// r7-C02: the mask writer fed through io.WriteString (an io.StringWriter fast path must advance the key position like
+// Write does). C02WV <via> <C02W line>: pieces are written alternately with Write and io.WriteString
+func c02WV(c *ctx, p []byte, key [4]byte, splits string) {
+	w := newRecWriter()
+	cw := wsutil.NewCipherWriter(w, key)
+	sizes := intsSpec(splits)
+	rest := append([]byte(nil), p...)
+	intact := true
+	for i := 0; len(rest) > 0 || i == 0; i++ {
+		k := sizes[i%len(sizes)]
+		if k > len(rest) {
+			k = len(rest)
+		}
+		var n int
+		var err error
+		if i%2 == 0 {
+			n, err = io.WriteString(cw, string(rest[:k]))
+		} else {
+			n, err = cw.Write(rest[:k])
+		}
+		if n != k || err != nil {
+			intact = false
+		}
+		rest = rest[k:]
+		if len(rest) == 0 {
+			break
+		}
+	}
+	c.emit("C02WV ws %s %s %s -> %s %d 1", hx(p), hx(key[:]), splits, hxList(w.calls), b2i(intact))
+}
+
+func r7C02(c *ctx) {
+	for _, n := range []int{1, 3, 5, 7, 8, 9, 17, 40, 100, 1000} {
+		for _, sp := range []string{"1", "3", "5,2", "7,1,9", "16", "2,3"} {
+			var key [4]byte
+			c.rng.Read(key[:])
+			c02WV(c, c.payload(n), key, sp)
+		}
+	}
+}
+
+// r7-C03: a close body built by the library belongs to the caller: changing it (masking the frame in place, writing
+// into it) must not change what the library builds next. C03N <code> <reasonlen> -> <code parsed from the SECOND body>
+// <its reason> <len>
+func c03N(c *ctx, code uint16, rl int) {
+	reason := strings.Repeat("r", rl)
+	b1 := ws.NewCloseFrameBody(ws.StatusCode(code), reason)
+	f := ws.MaskFrameInPlace(ws.NewCloseFrame(b1))
+	for i := range b1 {
+		b1[i] ^= 0x5a
+	}
+	_ = f
+	b2 := ws.NewCloseFrameBody(ws.StatusCode(code), reason)
+	pc, pr := ws.ParseCloseFrameData(b2)
+	c.emit("C03N %d %d -> %d %s %d", code, rl, pc, hx([]byte(pr)), len(b2))
+}
+
+func r7C03(c *ctx) {
+	for code := 990; code <= 1020; code++ {
+		for _, rl := range []int{0, 1, 5} {
+			c03N(c, uint16(code), rl)
+		}
+	}
+	for _, code := range []uint16{0, 3000, 4999, 65535} {
+		c03N(c, code, 0)
+	}
+	// reasons longer than a control frame can carry are still judged as a whole (the function does not know about
+	// frames): invalid bytes behind offset 123, characters straddling it
+	for _, n := range []int{120, 122, 123, 124, 125, 130, 200, 1000} {
+		ok := []byte(strings.Repeat("a", n))
+		c03C(c, 1000, ok)
+		for _, at := range []int{n - 1, n - 2, n / 2, 122, 123, 124} {
+			if at < 0 || at >= n {
+				continue
+			}
+			bad := append([]byte(nil), ok...)
+			bad[at] = 0xff
+			c03C(c, 1000, bad)
+			if at+3 <= n {
+				euro := append([]byte(nil), ok...)
+				copy(euro[at:], "\xe2\x82\xac")
+				c03C(c, 1000, euro)
+			}
+		}
+	}
+}
+
+// r7-C05: a SMALL frame-size limit (below 125) applies to control frames too, wherever they arrive: alone, before a
+// message, between the fragments of one
+func r7C05(c *ctx) {
+	for _, side := range []byte{1, 2} {
+		for _, max := range []int64{8, 63, 100, 124} {
+			for _, pl := range []int{0, 8, 9, 63, 64, 100, 101, 125} {
+				for _, op := range []byte{9, 10} {
+					ctl := c.mkFrame(side, true, op, pl)
+					t1, t2, t3 := c.mkFrame(side, false, 1, 5), c.mkFrame(side, false, 0, 3), c.mkFrame(side, true, 0, 4)
+					t1.payload, t2.payload, t3.payload = []byte("hello"), []byte(", w"), []byte("orld")
+					cfg := rcfg{state: side, cb: 1, chk: true, max: max}
+					runRD(c, "RD", cfg, []sframe{t1, ctl, t2, t3}, "-", chunkSpecs[(pl+int(op))%len(chunkSpecs)], "eof", "16")
+					runRD(c, "RD", cfg, []sframe{ctl, t1, t2, t3}, "-", "-", "eof", "4096")
+					cfg.cb = 0
+					runRD(c, "RD", cfg, []sframe{t1, t2, ctl, t3}, "-", "r3", "eof", "3")
+				}
+			}
+		}
+	}
+}
+
+// r7-C07: a control frame (empty or not) in FRONT of a fragmented text message whose continuation frames carry the
+// invalid bytes; through the Reader loop, ReadMessage and the ReadData family
+func r7C07(c *ctx) {
+	for _, side := range []byte{1, 2} {
+		for _, op := range []byte{9, 10} {
+			for _, cpl := range []int{0, 1, 20} {
+				for vi, v := range []struct{ a, b, d string }{
+					{"ab", "\xff", "c"}, {"caf", "\xc3", "("}, {"ok ", "\xed\xa0\x80", ""}, {"x", "yz", "\xc3"}, {"valid \xe2\x82", "\xac", " end"},
+				} {
+					ctl := c.mkFrame(side, true, op, cpl)
+					t1, t2, t3 := c.mkFrame(side, false, 1, 0), c.mkFrame(side, false, 0, 0), c.mkFrame(side, true, 0, 0)
+					t1.payload, t2.payload, t3.payload = []byte(v.a), []byte(v.b), []byte(v.d)
+					fs := []sframe{ctl, t1, t2, t3}
+					cfg := rcfg{state: side, cb: 1, chk: true}
+					runRD(c, "RD", cfg, fs, "-", chunkSpecs[(vi+cpl)%len(chunkSpecs)], "eof", bufSpecs[vi%len(bufSpecs)])
+					runRM(c, "RM", side, fs, "-", "-", "eof")
+					runRX(c, "RX", side, []string{"data", "text"}[vi%2], fs, "-", "-", "eof")
+					// twice in a row on one reader: control, message, control, message
+					runRD(c, "RD", cfg, append(append([]sframe(nil), fs...), fs...), "-", "r7", "eof", "4096")
+				}
+			}
+		}
+	}
+}
+
+// r7-C19: close reasons of every pooled size class re-read after other sessions used the pools (so far under C17 only)
+func r7C19Close(c *ctx) {
+	for _, n := range []int{0, 10, 61, 62, 63, 64, 80, 100, 123} {
+		for _, client := range []bool{false, true} {
+			pl := []byte{0x03, 0xe8}
+			for i := 0; i < n; i++ {
+				pl = append(pl, byte('a'+i%26))
+			}
+			c17Close(c, "close", client, pl)
+			c17Close(c, "closedata", client, pl)
 		}
 	}
 }
